@@ -15,11 +15,19 @@ import (
 type ssa_Function = ssa.Function
 
 const (
-	repoDir    = "/repo"
-	verifDir   = "/verif"
-	harnessDir = "/verif/harness"
-	modPath    = "src.elv.sh"
+	repoDir = "/repo"
+	modPath = "src.elv.sh"
 )
+
+// verifDir is /verif unless VERIF_ROOT points at a snapshot of it.
+var verifDir = func() string {
+	if d := os.Getenv("VERIF_ROOT"); d != "" {
+		return d
+	}
+	return "/verif"
+}()
+
+var harnessDir = verifDir + "/harness"
 
 type HarnessSpec struct {
 	Pkg        string               `json:"pkg"`
